@@ -292,6 +292,7 @@ def main(run):
     def mark(name):
         nonlocal t0
         phases[name] = round(time.time() - t0, 1)
+        vlib.log("C09 phase %s: %.1f s" % (name, phases[name]))
         t0 = time.time()
     run.prove()
     mark("prove")
